@@ -319,6 +319,120 @@ theorem P_merge_order_independent_wf (ds₁ ds₂ : List (Info ℝ)) (h : ds₁.
     mergePts (C10.storedPts cfg ds₁) = mergePts (C10.storedPts cfg ds₂) :=
   C10.P_merge_order_independent cfg ds₁ ds₂ h (fun d hd => P_sq_rows_aligned cfg d hb (hwf d hd).1 (hwf d hd).2)
 
+/-! ### Re-ingestion of a written curve (C18, model level) -/
+
+theorem rintR_int (k : ℤ) : rintR (k : ℝ) = k := by
+  unfold rintR
+  simp
+
+/-- a value with at most `d` decimals is a fixed point of `np.around(·, d)` -/
+theorem around_lattice (d : ℕ) (k : ℤ) :
+    Numpy.around d ((k : ℝ) / ((10 ^ d : ℕ) : ℝ)) = (k : ℝ) / ((10 ^ d : ℕ) : ℝ) := by
+  have h10 : ((10 ^ d : ℕ) : ℝ) ≠ 0 := by positivity
+  unfold Numpy.around
+  rw [div_mul_cancel₀ _ h10]
+  show rintR (k : ℝ) / _ = _
+  rw [rintR_int]
+
+/-- a column all of whose entries have at most `d` decimals -/
+def OnLattice (d : ℕ) (v : List ℝ) : Prop := ∀ a ∈ v, ∃ k : ℤ, a = (k : ℝ) / ((10 ^ d : ℕ) : ℝ)
+
+theorem aroundV_lattice (d : ℕ) (v : List ℝ) (h : OnLattice d v) : Numpy.aroundV d v = v := by
+  unfold Numpy.aroundV
+  conv_rhs => rw [← List.map_id v]
+  apply List.map_congr_left
+  intro a ha
+  obtain ⟨k, rfl⟩ := h a ha
+  simpa using around_lattice d k
+
+theorem zip3_fst_mem : ∀ (x y dy : List ℝ) (t : Pt), t ∈ zip3 ⟨x, y, dy⟩ → t.1 ∈ x
+  | [], _, _, t, h => by simp [zip3] at h
+  | _ :: _, [], _, t, h => by simp [zip3] at h
+  | _ :: _, _ :: _, [], t, h => by simp [zip3] at h
+  | a :: x, b :: y, c :: dy, t, h => by
+      simp only [zip3, List.zip_cons_cons, List.zipWith_cons_cons, List.mem_cons] at h
+      rcases h with rfl | h
+      · simp
+      · exact List.mem_cons_of_mem _ (zip3_fst_mem x y dy t (by simpa [zip3] using h))
+
+theorem zip3_keys : ∀ (x y dy : List ℝ), x.length = y.length → x.length = dy.length → (zip3 ⟨x, y, dy⟩).map (·.1) = x
+  | [], _, _, _, _ => by simp [zip3]
+  | _ :: _, [], _, h, _ => by simp at h
+  | _ :: _, _ :: _, [], _, h => by simp at h
+  | a :: x, b :: y, c :: dy, h1, h2 => by
+      have ih := zip3_keys x y dy (by simpa using h1) (by simpa using h2)
+      simp only [zip3, List.zip_cons_cons, List.zipWith_cons_cons, List.map_cons] at ih ⊢
+      rw [ih]
+
+theorem zip3_dy_zero : ∀ (x y : List ℝ) (t : Pt), t ∈ zip3 ⟨x, y, Vec.zerosLike y⟩ → t.2.2 = 0
+  | [], _, t, h => by simp [zip3] at h
+  | _ :: _, [], t, h => by simp [zip3, Vec.zerosLike] at h
+  | a :: x, b :: y, t, h => by
+      simp only [zip3, Vec.zerosLike, List.map_cons, List.zip_cons_cons, List.zipWith_cons_cons, List.mem_cons] at h
+      rcases h with rfl | h
+      · simp
+      · exact zip3_dy_zero x y t (by simpa [zip3, Vec.zerosLike] using h)
+
+/-- P (C18, re-ingestion, model level): a curve with strictly increasing Q on the 0.01 lattice and values with at most 16
+    decimals (a written file has 12), fed back in as a plain S(Q) dataset into an instance without a global window and
+    merged, reproduces the grid and the values -/
+theorem P_reingest_merged_curve (x y : List ℝ) (hl : x.length = y.length) (hx : x.Pairwise (· < ·))
+    (hx2 : OnLattice 2 x) (hy16 : OnLattice 16 y) (hc : cfg.qmin = none) (hc' : cfg.qmax = none) :
+    mergePts (zip3 (datasetRows cfg { x := x, y := y }).2) = zip3 ⟨x, y, Vec.zerosLike y⟩ := by
+  set info : Info ℝ := { x := x, y := y } with hinfo
+  have hspec := P_stored_spec cfg info hl (by intro d h; simp [hinfo] at h)
+  have hr : rounded info = zip3 ⟨x, y, Vec.zerosLike y⟩ := by
+    simp only [rounded, roundedDy, hinfo, aroundV_lattice 2 x hx2, aroundV_lattice 16 y hy16]
+  have hper : (rounded info).filter (inPer info) = rounded info := by
+    apply List.filter_eq_self.mpr
+    intro t ht
+    rw [hr] at ht
+    have hmem : t.1 ∈ x := zip3_fst_mem _ _ _ t ht
+    simp only [inPer, perLo, perHi, orElse, hinfo, aroundV_lattice 2 x hx2, Bool.and_eq_true, decide_eq_true_eq]
+    exact ⟨vec_min_le x _ hmem, vec_le_max x _ hmem⟩
+  have hadj : ∀ t, adjust info t = t := by intro t; simp [adjust, hinfo]
+  have hglob : ∀ t, inGlobal cfg t = true := by intro t; simp [inGlobal, hc, hc']
+  have h1 : zip3 (datasetRows cfg info).1 = zip3 ⟨x, y, Vec.zerosLike y⟩ := by
+    have hmap : List.map (adjust info) (rounded info) = rounded info := by
+      conv_rhs => rw [← List.map_id (rounded info)]
+      exact List.map_congr_left (fun t _ => hadj t)
+    rw [hspec, hper, hmap, List.filter_eq_self.mpr (fun t _ => hglob t), hr]
+  have h2 : (datasetRows cfg info).2 = (datasetRows cfg info).1 := by
+    simp [datasetRows, toSq, hinfo]
+  rw [h2, h1]
+  have hlz : x.length = (Vec.zerosLike y).length := by simp [Vec.zerosLike, hl]
+  have hkeys : (zip3 ⟨x, y, Vec.zerosLike y⟩).map (·.1) = x := zip3_keys x y _ hl hlz
+  have hnd : ((zip3 ⟨x, y, Vec.zerosLike y⟩).map (·.1)).Nodup := by
+    rw [hkeys]; exact hx.imp (fun h => h.ne)
+  rw [C10.P_merge_distinct _ hnd]
+  have hsorted : sortPts (zip3 ⟨x, y, Vec.zerosLike y⟩) = zip3 ⟨x, y, Vec.zerosLike y⟩ := by
+    unfold sortPts
+    apply List.mergeSort_of_pairwise
+    have : ((zip3 ⟨x, y, Vec.zerosLike y⟩).map (·.1)).Pairwise (· ≤ ·) := by rw [hkeys]; exact hx.imp le_of_lt
+    rw [List.pairwise_map] at this
+    exact this.imp (fun h => by simpa using h)
+  rw [hsorted]
+  conv_rhs => rw [← List.map_id (zip3 ⟨x, y, Vec.zerosLike y⟩)]
+  apply List.map_congr_left
+  intro t ht
+  have := zip3_dy_zero x y t ht
+  simp only [C10.single, id, this, abs_zero]
+  rw [← this]
+
+/-- X: the hypotheses are satisfiable: Q = (0.5, 0.51), S = (1.25, 0.75) -/
+example : OnLattice 2 [(1:ℝ) / 2, 51 / 100] ∧ OnLattice 16 [(5:ℝ) / 4, 3 / 4] := by
+  constructor
+  · intro a ha
+    simp only [List.mem_cons, List.not_mem_nil, or_false] at ha
+    rcases ha with rfl | rfl
+    · exact ⟨50, by norm_num⟩
+    · exact ⟨51, by norm_num⟩
+  · intro a ha
+    simp only [List.mem_cons, List.not_mem_nil, or_false] at ha
+    rcases ha with rfl | rfl
+    · exact ⟨12500000000000000, by norm_num⟩
+    · exact ⟨7500000000000000, by norm_num⟩
+
 example : applyScalesAndOffset [(1:ℝ)] [2] [0.5] 3 1 0.25 = ([1.25], [7], [1.5]) := by
   simp [applyScalesAndOffset, Vec.mulS, Vec.addS]; norm_num
 
